@@ -1,5 +1,5 @@
 (* C06: a nested-property packet built from a path / leaf operation is applied as the corresponding list/dict update *)
-From RU Require Import Base Types Defs BitReader World WireSpec TypesProofs BitReaderProofs.
+From RU Require Import Base Types Defs BitReader World WireSpec TypesProofs BitReaderProofs LwwProofs.
 From Coq Require Import Lia.
 Open Scope N_scope.
 
@@ -110,5 +110,56 @@ Lemma slice_assign_length {A} (i j : nat) (xs l : list A) : (i <= j <= length l)
   length (slice_assign i j xs l) = (length l - (j - i) + length xs)%nat.
 Proof. intros H. rewrite slice_assign_spec by exact H. rewrite !app_length, firstn_length, skipn_length. lia. Qed.
 
+
+(* ---- the whole packet: only the addressed client property of the addressed entity changes ---- *)
+Section Apply.
+Variable St : setup.
+Lemma nested_apply_shape e m sl payload e' cs :
+  nested_apply St e m sl payload = Ok (e', cs) -> exists name v, e' = set_client e name v.
+Proof.
+  unfold nested_apply. intros H.
+  destruct (br_get 1 (br_init payload)) as [[c r1]|]; cbn [bind] in H; [|discriminate H].
+  destruct (c =? 1); [|discriminate H].
+  destruct (br_get _ r1) as [[pid r2]|]; cbn [bind] in H; [|discriminate H].
+  destruct (nth_error (e_client m) (N.to_nat pid)) as [p|]; [|discriminate H].
+  destruct (assoc_get (p_name p) (en_client e)) as [top|]; [|discriminate H].
+  destruct (walk _ top r2) as [[[path leaf] r3]|]; cbn [bind] in H; [|discriminate H].
+  destruct (leaf_op sl leaf r3) as [[[newleaf last] notify]|]; cbn [bind] in H; [|discriminate H].
+  inversion H; subst. eauto.
+Qed.
+Theorem nested_apply_frame e m sl payload e' cs :
+  nested_apply St e m sl payload = Ok (e', cs) ->
+  en_base e' = en_base e /\ en_cell e' = en_cell e /\ en_vol e' = en_vol e /\ en_id e' = en_id e /\ en_type e' = en_type e.
+Proof. intros H. destruct (nested_apply_shape _ _ _ _ _ _ H) as (name & v & ->). repeat split. Qed.
+Theorem nested_apply_other_props e m sl payload e' cs :
+  nested_apply St e m sl payload = Ok (e', cs) ->
+  exists name, forall k, k <> name -> assoc_get k (en_client e') = assoc_get k (en_client e).
+Proof.
+  intros H. destruct (nested_apply_shape _ _ _ _ _ _ H) as (name & v & ->). exists name. intros k Hk.
+  cbn [set_client en_client]. apply LwwProofs.assoc_get_set_other. congruence.
+Qed.
+
+(* the payload size field is one SIGNED byte: 128..255 can never equal a length *)
+
+(* the payload size field is one SIGNED byte: 128..255 can never equal a length *)
+Theorem nested_payload_128_refused w id sl u payload :
+  (128 <= length payload < 256)%nat -> length u = 3%nat -> id < 2 ^ 32 ->
+  step_class St w NestedProperty (le_encode 4 id ++ [sl] ++ [n2b (N.of_nat (length payload))] ++ u ++ payload) = (w, Some EAssert).
+Proof.
+  intros Hl Hu Hid. cbn [step_class].
+  rewrite (get_u_app 4) by (change (256 ^ N.of_nat 4) with (2 ^ 32); exact Hid). cbn [bind app].
+  unfold get_s at 1. unfold need. cbn [split_exact bind le_decode].
+  unfold get_s at 1. unfold need. cbn [split_exact bind le_decode].
+  rewrite read_upto_app by exact Hu. cbn [snd].
+  rewrite N.mul_0_r, N.add_0_r. rewrite b2n_n2b by lia.
+  assert (E : (Z.of_nat (length payload) =? to_signed 1 (N.of_nat (length payload)))%Z = false).
+  { apply Z.eqb_neq. unfold to_signed.
+    destruct (N.of_nat (length payload) <? 2 ^ (8 * N.of_nat 1 - 1)) eqn:E.
+    - apply N.ltb_lt in E. change (2 ^ (8 * N.of_nat 1 - 1)) with 128 in E. lia.
+    - change (2 ^ (8 * Z.of_nat 1))%Z with 256%Z. lia. }
+  rewrite E. reflexivity.
+Qed.
+End Apply.
 Print Assumptions walk_encode_path.
-Print Assumptions update_at_leaf.
+Print Assumptions nested_payload_128_refused.
+Print Assumptions nested_apply_other_props.
